@@ -185,6 +185,8 @@ def analyse(ast, out, label):
             fails.append((f"returned-string-differs:{lang}", f"{label}: ret_output=True text differs from what is printed: {diff}"))
     S = {lang: goofit_read.read_output(out[lang], lang) for lang in ("cpp", "py")}
     a, b = S["cpp"], S["py"]
+    analyse.last_digest = short_hash([a["event"], a["constants"], a["resonances"], sorted(a["arrays"]),
+                                      [(am["spinfactors"], am["lineshapes"], am["fixed"], am["count"]) for am in a["amplitudes"]]])
     for key in ("event", "constants", "resonances", "parameters", "arrays", "masses"):
         if a[key] != b[key]:
             fails.append((f"outputs-differ:{key}", f"{label}: C++ {str(a[key])[:400]}\nPython {str(b[key])[:400]}"))
@@ -386,7 +388,7 @@ def work(items):
             f = check_cli(payload["which"])
         for s, d in f:
             fails.append((kind, payload, s, d, w))
-        outs.add(short_hash([kind, payload]) + ("F" if f else ""))
+        outs.add("F" if f and not all(x[0].startswith("undeclared:sA_0") for x in f) else getattr(analyse, "last_digest", "?"))
     return {"fails": fails, "outcomes": outs, "traces": len(items)}
 
 
